@@ -1,5 +1,4 @@
 /-- translated from the source text of `fieldcompare/_cli/_test_suite.py: TestSuite.__bool__` -/
--- v0 = self, v1 = t
 def c15TestSuiteBoolSrc : Fc.PyLite.Fn := {
   name := "TestSuite.__bool__"
   params := ["v0"]
@@ -11,7 +10,6 @@ def c15TestSuiteBoolSrc : Fc.PyLite.Fn := {
   ] }
 
 /-- translated from the source text of `fieldcompare/_cli/_test_suite.py: TestSuite.status` -/
--- v0 = self
 def c15TestSuiteStatusSrc : Fc.PyLite.Fn := {
   name := "TestSuite.status"
   params := ["v0"]
@@ -23,7 +21,6 @@ def c15TestSuiteStatusSrc : Fc.PyLite.Fn := {
   ] }
 
 /-- translated from the source text of `fieldcompare/_cli/_file_comparison.py: FileComparison._compare_field_sequences._merge_test_suites._merged_result` -/
--- v0 = r1, v1 = r2, v2 = r
 def c15MergedResultSrc : Fc.PyLite.Fn := {
   name := "FileComparison._compare_field_sequences._merge_test_suites._merged_result"
   params := ["v0", "v1"]
